@@ -71,7 +71,24 @@ def run(ctx):
     # push::sort::compare_rows and merges the runs with spill::external_sort::compare_rows. A run is only a valid merge
     # input if both comparators define the same order; in particular a Descending key must reverse the same thing in
     # both (the whole per-key ordering including NULL placement, or only the value comparison).
-    sibs = [P.fn("operators::push::sort::compare_rows"), P.fn("spill::external_sort::compare_rows")]
+    # the two comparators are found by use, not by name: what the spilling operator's sort closures call, and what the
+    # merge heap's Ord impl and the merge closures call (a refactor that shares one comparator leaves one function)
+    def grafeo_callees(fns):
+        return {callee_name(t) for g in fns for bi, t in g.calls()
+                if callee_name(t).startswith("grafeo_core::") and callee_name(t) in P.fns and P.fns[callee_name(t)].argc == 3}
+    run_side = [g for g in P.fns.values() if g.kind == "closure" and "push::sort::SpillableSortPushOperator" in g.id]
+    merge_side = [g for g in P.fns.values() if g.id == "<grafeo_core::execution::spill::external_sort::HeapEntry as core::cmp::Ord>::cmp"
+                  or (g.kind == "closure" and "external_sort::ExternalSort::" in g.id)]
+    rc, mc = grafeo_callees(run_side), grafeo_callees(merge_side)
+    ctx.floor("R3", len(rc), 1, "row comparators used to sort spilled runs")
+    ctx.floor("R3", len(mc), 1, "row comparators used to merge spilled runs")
+    if rc == mc and len(rc) == 1:
+        ctx.ob("R3", "sort-run-vs-merge-comparator", True, what="runs are sorted and merged by the same function", where=P.fns[min(rc)].loc())
+        sibs = []
+    elif len(rc) != 1 or len(mc) != 1:
+        raise CheckerError("C17-R3: expected one comparator on each side, found %s / %s" % (sorted(rc), sorted(mc)))
+    else:
+        sibs = [P.fns[min(rc)], P.fns[min(mc)]]
     sigs = []
     for f in sibs:
         fx = FlowCx(P, f)
@@ -86,11 +103,12 @@ def run(ctx):
         dirs = sorted({x[2] for bi, t in revs for x in fx.facts_at(bi) if x[0] == "variant" and x[1].endswith("SortDirection")})
         nulls = any(x.startswith("cell:SortKey.null_order") for b in f.blocks if not b["cl"] and b["t"]["k"] == "sw" for x in fx.tags(b["t"]["d"]))
         sigs.append((frozenset(sig), tuple(dirs), nulls, len(revs)))
-    ctx.floor("R3", sum(s_[3] for s_ in sigs), 2, "Ordering::reverse sites in the run / merge comparators")
-    ctx.ob("R3", "sort-run-vs-merge-comparator", sigs[0] == sigs[1],
-           what="the comparator that sorts spilled runs and the comparator that merges them differ in what a Descending key "
-                "reverses (%s vs %s): runs are not ordered the way the merge expects, so a spilled sort returns rows in a "
-                "different order than the in-memory sort" % (sorted(sigs[0][0]), sorted(sigs[1][0])), where=sibs[1].loc())
+    if sibs:
+      ctx.floor("R3", sum(s_[3] for s_ in sigs), 2, "Ordering::reverse sites in the run / merge comparators")
+      ctx.ob("R3", "sort-run-vs-merge-comparator", sigs[0] == sigs[1],
+             what="the comparator that sorts spilled runs and the comparator that merges them differ in what a Descending key "
+                  "reverses (%s vs %s): runs are not ordered the way the merge expects, so a spilled sort returns rows in a "
+                  "different order than the in-memory sort" % (sorted(sigs[0][0]), sorted(sigs[1][0])), where=sibs[1].loc())
 
     # ---- R2 = C16-R4 (spill codec)
     sub = type("Sub", (), {})()
